@@ -254,15 +254,15 @@ pub(crate) fn coq_recv(r: &Recv) -> String {
 // ------------------------------------------------------------------------------- handlers
 
 pub struct HCtl {
-    step: Step,
-    polled: bool,
-    completed: bool,
-    result: Option<Result<u64, ()>>,
-    dropped: bool,
+    pub(crate) step: Step,
+    pub(crate) polled: bool,
+    pub(crate) completed: bool,
+    pub(crate) result: Option<Result<u64, ()>>,
+    pub(crate) dropped: bool,
 }
 
-struct ScriptedHandler {
-    ctl: Rc<RefCell<HCtl>>,
+pub(crate) struct ScriptedHandler {
+    pub(crate) ctl: Rc<RefCell<HCtl>>,
 }
 
 impl Future for ScriptedHandler {
